@@ -94,9 +94,14 @@ func ruleOrderStart(c *Ctx) {
 	seen := g.ReachAfter(startN, func(x *Node) bool { return x == dn }, func(e *Edge) bool {
 		return errOfStart(e) && e.From != dn && g.Dominates(startN, e.From) && firstCondAfter(g, startN, e.From)
 	})
-	if _, bad := seen[g.Exit]; bad {
+	// only feasible paths count: after an inlined launch helper the shared
+	// `if err != nil { return }` follows `err = nil` on the success path
+	feas := p.FeasibleReach(f, []*Node{startN}, func(x *Node) bool { return x == dn }, func(e *Edge) bool {
+		return errOfStart(e) && e.From != dn && g.Dominates(startN, e.From) && firstCondAfter(g, startN, e.From)
+	})
+	if _, bad := seen[g.Exit]; bad && feas[g.Exit] {
 		c.R.Violate("R-ORDER/O3", p.Pos(dn.Ast), f.Name, "defer registered right after the launch", "there is a return between a successful runner.Start and the registration of the cleanup defer: a failure there leaves the process running", p.PathTo(seen, g.Exit))
-	} else if !g.Dominates(startN, dn) {
+	} else if !g.Dominates(startN, dn) && p.FeasibleReach(f, []*Node{g.Entry}, func(x *Node) bool { return x == startN }, nil)[dn] {
 		c.R.Violate("R-ORDER/O3", p.Pos(dn.Ast), f.Name, "defer registered right after the launch", "the cleanup defer is not registered after the launch", nil)
 	} else {
 		c.R.Hold("R-ORDER/O3", p.Pos(dn.Ast), f.Name, "defer registered right after the launch", "no return lies between a successful runner.Start and the defer statement", true)
@@ -110,11 +115,61 @@ func ruleOrderStart(c *Ctx) {
 			recV = assignedVar(p, linfo, call)
 		}
 	}
+	// locals of Start that are plain copies of the started runner (runner := r)
+	rvs := map[types.Object]bool{}
+	if rv != nil {
+		rvs[rv] = true
+		for changed := true; changed; {
+			changed = false
+			nonCopy := map[types.Object]bool{}
+			type cp struct{ dst, src types.Object }
+			var cps []cp
+			ast.Inspect(f.Body, func(x ast.Node) bool {
+				as, ok := x.(*ast.AssignStmt)
+				if !ok {
+					return true
+				}
+				for i, l := range as.Lhs {
+					dv, _ := identObj(info, l).(*types.Var)
+					if dv == nil || dv.IsField() {
+						continue
+					}
+					if len(as.Lhs) != len(as.Rhs) {
+						nonCopy[dv] = true
+						continue
+					}
+					if isNilIdent(info, as.Rhs[i]) {
+						continue
+					}
+					if sv, ok := identObj(info, ast.Unparen(as.Rhs[i])).(*types.Var); ok && !sv.IsField() {
+						cps = append(cps, cp{dv, sv})
+					} else {
+						nonCopy[dv] = true
+					}
+				}
+				return true
+			})
+			for _, e := range cps {
+				if rvs[e.src] && !rvs[e.dst] && !nonCopy[e.dst] {
+					only := true
+					for _, e2 := range cps {
+						if e2.dst == e.dst && !rvs[e2.src] {
+							only = false
+						}
+					}
+					if only {
+						rvs[e.dst] = true
+						changed = true
+					}
+				}
+			}
+		}
+	}
 	var killN *Node
 	for _, m := range lg.Nodes {
 		for _, call := range callsIn(m.Ast) {
 			if p.CalleeName(lit, call) == modPath+"/runner.AttachedRunner.Kill" {
-				if se, ok := call.Fun.(*ast.SelectorExpr); ok && identObj(linfo, se.X) == rv {
+				if se, ok := call.Fun.(*ast.SelectorExpr); ok && rvs[identObj(linfo, se.X)] {
 					killN = m
 				}
 			}
